@@ -6,9 +6,11 @@
   The layout is carried by the tree itself, as the pieces of insignificant white space a standard parser
   drops:  `sep` before every further sibling, `pre` / `post` inside a node around its children, and `gap`
   between the last attribute and the closing `>` / `/>` of a start tag.  The standard reading (`valT`)
-  ignores all of them.  Fixed by the rendering (not yet varied): exactly one space before every
-  attribute, attributes in the order given, an empty element with attributes in self-closing form
-  (`PTree.empty`) or as an empty pair (`PTree.leaf` with empty text).
+  ignores all of them.  Fixed by THIS rendering: exactly one space before every attribute, attributes in
+  the order given; an empty element with attributes is in self-closing form (`PTree.empty`) or an empty
+  pair (`PTree.leaf` with empty text).  KskmProofs/Lemmas/XmlRenderW.lean varies the white space in front of
+  the attributes (`WTree`, of which this is the instance "one space"), KskmProofs/Lemmas/XmlDictEq.lean the
+  attribute order (`AttrPermT`).
 -/
 import Kskm.Xml
 namespace Kskm.Xml
